@@ -69,8 +69,14 @@ impl<T> Object<T> {
     #[must_use]
     pub fn take(mut this: Self) -> T {
         if let Some(pool) = this.pool.upgrade() {
+            #[cfg(deadpool_verif)]
+            crate::verif::point("utake.enter");
             let _ = pool.size.fetch_sub(1, Ordering::Relaxed);
+            #[cfg(deadpool_verif)]
+            crate::verif::point("utake.sized");
             pool.size_semaphore.add_permits(1);
+            #[cfg(deadpool_verif)]
+            crate::verif::point("utake.permit");
         }
         this.obj.take().unwrap()
     }
@@ -80,13 +86,23 @@ impl<T> Drop for Object<T> {
     fn drop(&mut self) {
         if let Some(obj) = self.obj.take() {
             if let Some(pool) = self.pool.upgrade() {
+                #[cfg(deadpool_verif)]
+                crate::verif::point("uret.enter");
                 {
                     let mut queue = pool.queue.lock().unwrap();
                     queue.push(obj);
                 }
+                #[cfg(deadpool_verif)]
+                crate::verif::point("uret.pushed");
                 let _ = pool.available.fetch_add(1, Ordering::Relaxed);
+                #[cfg(deadpool_verif)]
+                crate::verif::point("uret.avail");
                 pool.semaphore.add_permits(1);
+                #[cfg(deadpool_verif)]
+                crate::verif::point("uret.permit");
                 pool.clean_up();
+                #[cfg(deadpool_verif)]
+                crate::verif::point("uret.cleaned");
             }
         }
     }
@@ -193,12 +209,20 @@ impl<T> Pool<T> {
             TryAcquireError::NoPermits => PoolError::Timeout,
             TryAcquireError::Closed => PoolError::Closed,
         })?;
+        #[cfg(deadpool_verif)]
+        crate::verif::point("uget.permit");
         let obj = {
             let mut queue = inner.queue.lock().unwrap();
             queue.pop().unwrap()
         };
+        #[cfg(deadpool_verif)]
+        crate::verif::point("uget.popped");
         permit.forget();
+        #[cfg(deadpool_verif)]
+        crate::verif::point("uget.forgot");
         let _ = inner.available.fetch_sub(1, Ordering::Relaxed);
+        #[cfg(deadpool_verif)]
+        crate::verif::point("uget.avail");
         Ok(Object {
             pool: Arc::downgrade(&self.inner),
             obj: Some(obj),
@@ -232,12 +256,20 @@ impl<T> Pool<T> {
                 .map_err(|_| PoolError::Closed),
             (Some(_), None) => Err(PoolError::NoRuntimeSpecified),
         }?;
+        #[cfg(deadpool_verif)]
+        crate::verif::point("uget.permit");
         let obj = {
             let mut queue = inner.queue.lock().unwrap();
             queue.pop().unwrap()
         };
+        #[cfg(deadpool_verif)]
+        crate::verif::point("uget.popped");
         permit.forget();
+        #[cfg(deadpool_verif)]
+        crate::verif::point("uget.forgot");
         let _ = inner.available.fetch_sub(1, Ordering::Relaxed);
+        #[cfg(deadpool_verif)]
+        crate::verif::point("uget.avail");
         Ok(Object {
             pool: Arc::downgrade(&self.inner),
             obj: Some(obj),
@@ -256,6 +288,8 @@ impl<T> Pool<T> {
     pub async fn add(&self, object: T) -> Result<(), (T, PoolError)> {
         match self.inner.size_semaphore.acquire().await {
             Ok(permit) => {
+                #[cfg(deadpool_verif)]
+                crate::verif::point("uadd.permit");
                 permit.forget();
                 self._add(object);
                 Ok(())
@@ -274,6 +308,8 @@ impl<T> Pool<T> {
     pub fn try_add(&self, object: T) -> Result<(), (T, PoolError)> {
         match self.inner.size_semaphore.try_acquire() {
             Ok(permit) => {
+                #[cfg(deadpool_verif)]
+                crate::verif::point("uadd.permit");
                 permit.forget();
                 self._add(object);
                 Ok(())
@@ -291,13 +327,23 @@ impl<T> Pool<T> {
     /// `max_size`. In the methods `add` and `try_add` this is ensured by using
     /// the `size_semaphore`.
     fn _add(&self, object: T) {
+        #[cfg(deadpool_verif)]
+        crate::verif::point("uadd.enter");
         let _ = self.inner.size.fetch_add(1, Ordering::Relaxed);
+        #[cfg(deadpool_verif)]
+        crate::verif::point("uadd.sized");
         {
             let mut queue = self.inner.queue.lock().unwrap();
             queue.push(object);
         }
+        #[cfg(deadpool_verif)]
+        crate::verif::point("uadd.pushed");
         let _ = self.inner.available.fetch_add(1, Ordering::Relaxed);
+        #[cfg(deadpool_verif)]
+        crate::verif::point("uadd.avail");
         self.inner.semaphore.add_permits(1);
+        #[cfg(deadpool_verif)]
+        crate::verif::point("uadd.done");
     }
 
     /// Removes an [`Object`] from this [`Pool`].
@@ -321,14 +367,48 @@ impl<T> Pool<T> {
     /// All current and future tasks waiting for [`Object`]s will return
     /// [`PoolError::Closed`] immediately.
     pub fn close(&self) {
+        #[cfg(deadpool_verif)]
+        crate::verif::point("uclose.enter");
         self.inner.semaphore.close();
+        #[cfg(deadpool_verif)]
+        crate::verif::point("uclose.sem");
         self.inner.size_semaphore.close();
+        #[cfg(deadpool_verif)]
+        crate::verif::point("uclose.size_sem");
         self.inner.clear();
+        #[cfg(deadpool_verif)]
+        crate::verif::point("uclose.cleared");
     }
 
     /// Indicates whether this [`Pool`] has been closed.
     pub fn is_closed(&self) -> bool {
         self.inner.is_closed()
+    }
+
+    /// Internal counters of this [`Pool`] (verification builds only).
+    #[cfg(deadpool_verif)]
+    #[doc(hidden)]
+    #[must_use]
+    pub fn verif_snapshot(&self) -> crate::verif::UnmanagedSnapshot {
+        let queue = self.inner.queue.lock().unwrap();
+        crate::verif::UnmanagedSnapshot {
+            permits: self.inner.semaphore.available_permits(),
+            size_permits: self.inner.size_semaphore.available_permits(),
+            size: self.inner.size.load(Ordering::Relaxed),
+            available: self.inner.available.load(Ordering::Relaxed),
+            queue: queue.len(),
+            closed: self.inner.semaphore.is_closed(),
+        }
+    }
+
+    /// Visits the queued objects in queue order (verification builds only).
+    #[cfg(deadpool_verif)]
+    #[doc(hidden)]
+    pub fn verif_queue(&self, mut f: impl FnMut(&T)) {
+        let queue = self.inner.queue.lock().unwrap();
+        for obj in queue.iter() {
+            f(obj);
+        }
     }
 
     /// Retrieves [`Status`] of this [`Pool`].
@@ -377,6 +457,8 @@ impl<T> PoolInner<T> {
     /// don't contain any [`Object`]s.
     fn clean_up(&self) {
         if self.is_closed() {
+            #[cfg(deadpool_verif)]
+            crate::verif::point("uclean.closed");
             self.clear();
         }
     }
